@@ -122,6 +122,37 @@ var slotBuilders = []slotBuilder{
 		}
 		return ObjN(g.Field(), ObjN(g.pick("$in", "$nin", "$all"), mk(1001+g.R.Intn(300))), "tags", mk(1030+g.R.Intn(100)))
 	})},
+	{"mixed-string-lists", "update", func(g *Gen, l func() *Node, coll, db string) *Node {
+		// lists of 32+ plain strings that MIX e-mail-shaped and ordinary members (logins): each member
+		// gets the placeholder of its own class
+		mk := func(n int, slot string) *Node {
+			a := ArrN()
+			for i := 0; i < n; i++ {
+				cl := "str"
+				if (i+n)%3 == 0 {
+					cl = "email"
+				}
+				a.Vals = append(a.Vals, g.LitClass(cl, "cat-mixed-"+slot))
+			}
+			return a
+		}
+		st := ObjN("q", ObjN("login", ObjN(g.pick("$in", "$nin"), mk(33+g.R.Intn(20), "in"))), "u", ObjN("$addToSet", ObjN("contacts", ObjN("$each", mk(40, "each"))), "$set", ObjN("aliases", mk(35, "array-field"), "first", l())), "multi", FreeB(false))
+		return cmdTail(ObjN("update", collN(coll), "updates", ArrN(st), "ordered", keep(BoolN(true))), db)
+	}},
+	{"mixed-string-lists-agg", "aggregate", aggWith(func(g *Gen, l func() *Node) []*Node {
+		mk := func(n int, slot string) *Node {
+			a := ArrN()
+			for i := 0; i < n; i++ {
+				cl := "email"
+				if (i+n)%4 == 0 {
+					cl = "str"
+				}
+				a.Vals = append(a.Vals, g.LitClass(cl, "cat-mixed-"+slot))
+			}
+			return a
+		}
+		return []*Node{ObjN("$search", ObjN("index", KeepS("idx_mixed"), "in", ObjN("path", FreeS("login"), "value", mk(36, "search-in")))), ObjN("$match", ObjN("login", ObjN("$in", mk(34, "match-in")), "x", l()))}
+	})},
 	{"match-large-in", "aggregate", aggWith(func(g *Gen, l func() *Node) []*Node {
 		a := ArrN()
 		for i, n := 0, 1002+g.R.Intn(200); i < n; i++ {
